@@ -343,7 +343,7 @@ func checkC14(c *Ctx) {
 	wide := wideDirectives()
 	c.Section("C14/roundtrip-wide", map[string]interface{}{"widths": len(wide.Wids), "precisions": len(wide.Precs), "what": "widths/precisions congruent modulo 2^8 and 2^16 to smaller ones of the same space"}, wide.Size(), func(i int, w *Worker) {
 		d := wide.Get(i)
-		if d.Wid < 9 && d.Prec < 6 {
+		if d.Wid < 10 && d.Prec < 7 {
 			return // covered by C14/roundtrip
 		}
 		w.Eval()
